@@ -200,6 +200,17 @@ func newECDHKey(created uint32, cv25519 bool, kdfExtra []byte, r *rng) *pgpKeyMa
 	return &pgpKeyMat{algo: 18, created: created, body: body, curve: curve}
 }
 
+// newECDHKeyOn: an ECDH (sub)key over a NIST curve
+func newECDHKeyOn(created uint32, c elliptic.Curve) *pgpKeyMat {
+	k, _ := ecdsa.GenerateKey(c, rand.Reader)
+	oid := map[string][]byte{"P-256": pgpOidP256, "P-384": pgpOidP384, "P-521": pgpOidP521}[c.Params().Name]
+	body := append(keyHead(created, 18), byte(len(oid)))
+	body = append(body, oid...)
+	body = append(body, pgpMPI(elliptic.Marshal(c, k.X, k.Y))...)
+	body = append(body, 3, 1, 8, 7)
+	return &pgpKeyMat{algo: 18, created: created, body: body, curve: c.Params().Name}
+}
+
 type pgpSigSpec struct {
 	sigType   byte
 	created   uint32
